@@ -33,7 +33,30 @@ int main(int argc, char** argv)
         const std::vector<double> v = { -1.0e30, -1.0, -0.0, 0.0, 1.0, std::nextafter(1.0, 2.0), 1.0e30 };
         for (int op = 0; op <= 13; ++op) for (double a : v) for (double b : v)
             if (one(r, op, a, b, false)) return 1;
+        // well-level left side / well-level right side
+        for (int op = 0; op <= 13; ++op) for (double a : v) for (double b : v) {
+            int g; bool well = false; const int e = expect(op, a, b);
+            try { const auto res = Value("W", a).eval_cmp(static_cast<TokenType>(op), Value(b)); g = res.conditionSatisfied() ? 1 : 0; well = res.matches().hasWell("W"); }
+            catch (const std::exception&) { g = 2; }
+            if (g != e || well != (e == 1)) { std::ostringstream w; w.precision(17); w << "well W with value " << a << " compared by token type " << op << " with " << b << " gives " << show(g) << (well ? " matching W" : " not matching W") << ", the contract requires " << show(e); return r.verdict(false, w.str()); }
+            try { (void) Value(a).eval_cmp(static_cast<TokenType>(op), Value("R", b)); return r.verdict(false, "a well-level right hand side is accepted"); }
+            catch (const std::exception&) {}
+        }
         return r.verdict(true, "all 14 token types over 49 operand pairs behave as contracted (bounded native search)");
+    }
+    if (r.is("eval_cmp/") || r.is("value_scalar/")) {
+        // the counterexample gives both nodes: scalar or well-level (a well-level node is built with one well W)
+        const int op = static_cast<int>(r.integer("op"));
+        const bool ls = r.num("verif_in_self.is_scalar_", 1.0) != 0.0, rs = r.num("verif_in_rhs.is_scalar_", 1.0) != 0.0;
+        const double a = r.num("verif_in_self.scalar_value_", 0.0), b = r.num("verif_in_rhs.scalar_value_", 0.0);
+        const Value lhs = ls ? Value(a) : Value("W", a), rhs = rs ? Value(b) : Value("R", b);
+        int g, e = rs ? expect(op, a, b) : 2; bool well = false;
+        try { const auto res = lhs.eval_cmp(static_cast<TokenType>(op), rhs); g = res.conditionSatisfied() ? 1 : 0; well = res.matches().hasWell("W"); }
+        catch (const std::exception&) { g = 2; }
+        std::ostringstream w; w.precision(17);
+        w << (ls ? "scalar " : "well-level ") << a << " compared by token type " << op << " with " << (rs ? "scalar " : "well-level ") << b << " gives " << show(g)
+          << (well ? " matching W" : "") << ", the contract requires " << show(e) << ((!ls && e == 1) ? " matching W" : "");
+        return r.verdict(g == e && well == (!ls && e == 1), w.str());
     }
     return one(r, static_cast<int>(r.integer("op")), r.num("lhs", 0.0), r.num("rhs", 0.0), true);
 }
